@@ -190,6 +190,14 @@ def c13(prop, tier, seed):
 CHECKS["C13"] = c13
 
 
+def c11(prop, tier, seed):
+    import smallchecks
+    return smallchecks.check_c11(prop, tier, seed)
+
+
+CHECKS["C11"] = c11
+
+
 def simc(prop, tier, seed):
     import simcheck
     return simcheck.check_sim(prop, tier, seed)
@@ -274,7 +282,19 @@ META["C13"] = dict(
     design_ref="DESIGN.md section 6/C13",
     technique="TLA+ spec of the clamp checked exhaustively by TLC; class-pair realisations and sampler corner runs of the real code validated against it")
 
+META["C11"] = dict(
+    engine="codec", level="exploration",
+    text=("Codec.tla states the parsing pipeline as stages with a memory account and TLC checks Ok => validated and the bomb-independent "
+          "memory bound for every abstract input; the byte-level codec is outside the family, so the claim is exploration: generated valid "
+          "machines up to the size limit are round-tripped on the real code and hostile strings are fed to both parsers under a counting "
+          "allocator, and TLC judges every record (CodecTrace)"),
+    note="exploration level: bincode / zlib / base64 fidelity is sampled, not modelled; trusted: the counting allocator, TLC",
+    design_ref="DESIGN.md section 6/C11 and section 8",
+    technique="TLA+ pipeline spec with memory account (TLC); generated round trips and hostile inputs on the real parsers, records judged by a TLA+ trace spec")
+
 ENGINES = [
+    dict(name="codec", path="/verif/spec/Codec.tla", serves_properties=["C11"],
+         kind_free_text="TLA+ pipeline spec of from_str, TLC; codec_cases on the real parsers with a counting allocator"),
     dict(name="distclamp", path="/verif/spec/DistClamp.tla", serves_properties=["C13"],
          kind_free_text="TLA+ spec of Dist::sample and its consumers, TLC over all class pairs, dist_cases on the real samplers"),
     dict(name="validation", path="/verif/spec/Validation.tla", serves_properties=["C12"],
